@@ -27,10 +27,15 @@ def get_reserved_words():
     from mindsdb_sql.parser.dialects.mindsdb.lexer import MindsDBLexer
 
     reserved = RESERVED_KEYWORDS
-    for word in SQLLexer.tokens | MindsDBLexer.tokens:
-        if '_' not in word:
-            # exclude combinations
-            reserved.add(word)
+    for lexer in (SQLLexer, MindsDBLexer):
+        for word in lexer.tokens:
+            if '_' not in word:
+                reserved.add(word)
+                continue
+            # exclude combinations ('GROUP_BY' is 'GROUP BY'), but not keywords that are written with an underscore ('ML_ENGINE')
+            pattern = getattr(lexer, word, None)
+            if isinstance(pattern, str) and re.fullmatch(pattern, word, re.IGNORECASE):
+                reserved.add(word)
     return reserved
 
 
